@@ -1029,4 +1029,20 @@ Section P.
       + destruct (IH s links' k e' Hin Hin2) as [links [e [H0 [H1 H2]]]]. exists links, e. split; [right; exact H0 | split; assumption].
   Qed.
 
+
+  (* ---------- completeness of one level: if every stage succeeds, so does the verification ---------- *)
+  Theorem verify_body_complete rec w path d layout_env keys step_name params inter s w' tr :
+    stages rec w path d layout_env keys step_name params inter s w' tr ->
+    verify_body rec w path d layout_env keys step_name params inter = (Ok s, w', tr).
+  Proof.
+    intros [l0 l loaded verified resolved reduced rl imeta w2 tr2 Hs Hp He Hsu Hc Hl Ht Hss Hal Hred Hel Hr1 Hin Hr2 Hsum].
+    unfold Pipeline.verify_body. rewrite Hs, Hp, He, Hsu, Hc, Hl, Ht.
+    unfold Pipeline.after_thresholds. rewrite Hss, Hal, Hred, Hel, Hr1, Hin, Hr2, Hsum. reflexivity.
+  Qed.
+
+  Corollary verify_ok_iff_stages fuel w path d layout_env keys step_name params inter s w' tr :
+    verify (S fuel) w path d layout_env keys step_name params inter = (Ok s, w', tr) <->
+    stages (verify fuel) w path d layout_env keys step_name params inter s w' tr.
+  Proof. rewrite verify_unfold. split; [apply verify_body_ok_inv | apply verify_body_complete]. Qed.
+
 End P.
